@@ -293,6 +293,7 @@ pub fn gen_action(r: &mut Rng, c: &Ctx, depth: u32, waiting: bool) -> String {
             4 => format!("(movemouse-{} {} 1)", r.pick(&["up", "left", "down", "right"]), r.pick(&[5u32, 20])),
             5 => format!("(caps-word {})", r.pick(&[10u32, 50, 200])),
             6 => format!("(unicode {})", r.pick(&["x", "q"])),
+            7 if r.chance(1, 2) => format!("(one-shot-pause-processing {})", r.pick(&[3u32, 20, 100])),
             _ => (*r.pick(&["mlft", "mrgt"])).to_string(),
         },
         _ => out_key(r),
